@@ -39,8 +39,11 @@ CLAIMED = {
              "empty, first/first_result/last_result/single/some/consume equal list semantics including error kinds, size = length, "
              "to_bool is false exactly for \"\", \"0\" and casings of \"false\", trim_suffix removes one occurrence or nothing, "
              "Option::has is equality, take_while_p yields the longest satisfying prefix and leaves the failing item. Tied by exhaustive "
-             "runs over lengths x index pairs x isize corners and multi-byte strings. Partial: the defer clause (exactly once, LIFO, on "
-             "every exit path) rests on Rust's drop order, which no Gallina model can exhibit; it is not yet exercised here.",
+             "runs over lengths x index pairs x isize corners and multi-byte strings. The defer clause is proved over a model of Rust's "
+             "scope semantics for locals (Core/Defer.v: every registered closure runs exactly once on every exit path - normal end, early "
+             "return, panic -, LIFO within a scope, enclosing defers run when an inner scope is left early) and tied by running every small "
+             "program of nested scopes with real defer(..) guards on the call stack. Partial: that locals are dropped in reverse order, also "
+             "when unwinding, is Rust's semantics and an assumption of the model.",
         note="Trusted: Coq kernel; list model of double-ended iterators; ASCII model of to_lowercase validated over all scalars by "
              "stream lowercase-scan; extraction, driver, harness, differ.",
         technique="Coq proof (list arithmetic with lia) + exhaustive correspondence",
@@ -112,11 +115,11 @@ CLAIMED = {
         text="Coq theorems over the mirror of the Memfs state (entries index, data index, per-directory name sets, cwd, root): the well-formedness "
              "invariant WF (every non-root path has a parent that is a real directory and lists it; every listed name exists; exactly the regular "
              "non-link files have data; every entry is stored under its own path; cwd and root absolute) holds initially and is preserved by every "
-             "step of every call other than move / copy / chmod / chown / mkfile_m, succeeding or failing, for all arguments (wf_step_nonmove, "
-             "wf_reachable by induction over histories); a boolean checker wf_b is proved sound for WF and is evaluated by the extracted model on "
-             "the implementation's own state snapshot after every history of a model-guided BFS over a bounded namespace and of random longer "
-             "histories, which is what covers move / copy / chmod / chown. Partial: preservation by move_p / copy / chmod / chown is judged on "
-             "snapshots (bounded enumeration), not yet proved.",
+             "call other than move_p - copy, chmod, chown and mkfile_m included - succeeding or failing, for all arguments, hence after every "
+             "move_p-free history of any length (wf_step_nonmovep, wf_history); a boolean checker wf_b is proved sound for WF and is evaluated by the "
+             "extracted model on the implementation's own state snapshot after every history of a model-guided BFS over a bounded namespace and of "
+             "random longer histories, which is what covers move_p. Partial: preservation by move_p's relocation loop is judged on snapshots "
+             "(bounded enumeration), not yet proved.",
         note="Trusted: Coq kernel; hook sys::verif::memfs_snapshot (read-only dump of the guarded state); HashSet/HashMap as finite sets/maps; "
              "extraction, driver, harness, differ.",
         technique="Coq proof (invariant by induction over operation histories, sound boolean checker) + snapshot judging on the implementation",
